@@ -139,4 +139,159 @@ theorem draw_progress (b : Nat → Option Nat) (cfg : Cfg) (W H F Mx : Nat)
   rw [h17]
   exact ⟨_, _, rfl, by simp only []; rw [hrl]; simpa using hlen⟩
 
+/-! #### from any state in which no upward scroll is due -/
+
+/-- The downward loop in general (the cursor may still have to be reached): it stops after at most `k` more widgets, `k` =
+    the larger of the rows still missing and the distance to the cursor. -/
+theorem pos_loop2 (R : Ro) (Mx : Nat) (hb : ∀ i, ∃ h, R.b i = some h ∧ h ≤ Mx ∧ 1 ≤ (h : Int) + R.gap) (st : St) (tag : String) :
+    ∀ (k : Nat) (F : Nat) (acc : List Child) (ρ : List (String × Int)) (i : Nat) (ah : Int),
+      ((R.H : Int) - ah).toNat ≤ k → st.cursor + 1 - i ≤ k → k + 2 ≤ F → i + k + 1 < 2 ^ 64 →
+      lookup ρ "v2" = some ah → lookup ρ "v3" = some ↑i → (∀ c ∈ acc, c.height ≤ Mx) →
+      ∃ acc' ρ', loopN (fun m => evB R m ddCond) (exec R ddBody) (exec R .skip) F ⟨st, acc, ρ, ["v3"], tag⟩ =
+          .ok (⟨st, acc', ρ', ["v3"], tag⟩, .norm) ∧ acc'.length ≤ acc.length + max k 1 ∧ (∀ c ∈ acc', c.height ≤ Mx) := by
+  intro k
+  induction k with
+  | zero =>
+    intro F acc ρ i ah hk hcur hF hi hv2 hv3 hacc
+    obtain ⟨F', rfl⟩ : ∃ F', F = F' + 1 := ⟨F - 1, by omega⟩
+    obtain ⟨h, hbi, hM, hp⟩ := hb i
+    have hy : uaddI ↑i 1 = ((i + 1 : Nat) : Int) := by
+      unfold uaddI toUintI; rw [U_val]; omega
+    have hbody := dd_body R st acc ρ tag F' ah i (i + 1) h hv2 hv3 hbi hy
+    have hnw : ¬ (st.wantsCursor = true ∧ i + 1 ≤ st.cursor) := by omega
+    have hH : ah + (↑h + R.gap) ≥ R.H := by omega
+    rw [if_neg hnw, if_pos hH] at hbody
+    rw [loopN, dd_cond, hbody]
+    refine ⟨_, _, rfl, by simp, ?_⟩
+    intro c hc
+    rcases List.mem_append.mp hc with h' | h'
+    · exact hacc c h'
+    · simp at h'; subst h'; exact hM
+  | succ k ih =>
+    intro F acc ρ i ah hk hcur hF hi hv2 hv3 hacc
+    obtain ⟨F', rfl⟩ : ∃ F', F = F' + 1 := ⟨F - 1, by omega⟩
+    obtain ⟨h, hbi, hM, hp⟩ := hb i
+    have hy : uaddI ↑i 1 = ((i + 1 : Nat) : Int) := by
+      unfold uaddI toUintI; rw [U_val]; omega
+    have hbody := dd_body R st acc ρ tag F' ah i (i + 1) h hv2 hv3 hbi hy
+    have hacc' : ∀ c ∈ acc ++ [{ idx := i, row := ah, height := h }], c.height ≤ Mx := by
+      intro c hc
+      rcases List.mem_append.mp hc with h' | h'
+      · exact hacc c h'
+      · simp at h'; subst h'; exact hM
+    have hrec := ih F' (acc ++ [{ idx := i, row := ah, height := h }]) (ddRho i (i + 1) h (ah + (↑h + R.gap)) ρ)
+        (i + 1) (ah + (↑h + R.gap)) (by omega) (by omega) (by omega) (by omega) (by simp [ddRho, lookup]) (by simp [ddRho, lookup]) hacc'
+    by_cases hwc : st.wantsCursor = true ∧ i + 1 ≤ st.cursor
+    · rw [if_pos hwc] at hbody
+      rw [loopN, dd_cond, hbody]
+      simp only [exec_skip]
+      obtain ⟨acc', ρ', he, hl, hm⟩ := hrec
+      refine ⟨acc', ρ', he, ?_, hm⟩
+      simp only [List.length_append, List.length_cons, List.length_nil] at hl
+      omega
+    · rw [if_neg hwc] at hbody
+      by_cases hH : ah + (↑h + R.gap) ≥ R.H
+      · rw [if_pos hH] at hbody
+        rw [loopN, dd_cond, hbody]
+        exact ⟨_, _, rfl, by simp, hacc'⟩
+      · rw [if_neg hH] at hbody
+        rw [loopN, dd_cond, hbody]
+        simp only [exec_skip]
+        obtain ⟨acc', ρ', he, hl, hm⟩ := hrec
+        refine ⟨acc', ρ', he, ?_, hm⟩
+        simp only [List.length_append, List.length_cons, List.length_nil] at hl
+        omega
+
+theorem cl_cond_some (R : Ro) (m : M) (h : Nat) (hb : R.b m.st.top = some h) : evB R m clCond = some false := by
+  xs [clCond, draw2, hb]
+
+theorem revealX_length (cs : List Child) (s : St) (H x : Nat) : (revealX cs s H x).1.length = cs.length := by
+  unfold revealX
+  split
+  · split
+    · split
+      · simp only []; split
+        · simp
+        · split <;> simp
+      · rfl
+    · rfl
+  · rfl
+
+/-- **An endless Builder whose widgets make progress, from ANY state in which no upward scroll is due** (`offset + pending ≥ 0`
+    or the top widget is the first): `Draw` returns, with at most `max 1 (max (H + offset + pending) (cursor + 1 − top))`
+    children. -/
+theorem draw_progress2 (b : Nat → Option Nat) (cfg : Cfg) (s : St) (W H F Mx : Nat)
+    (hb : ∀ i, ∃ h, b i = some h ∧ h ≤ Mx ∧ 1 ≤ (h : Int) + cfg.gap)
+    (h1 : H < 65535) (h2 : W ≠ 65535) (hno : (prologue s).1 ≤ 0)
+    (hF : max (((H : Int) - (prologue s).1).toNat) (s.cursor + 1 - s.top) + H + Mx + 3 ≤ F)
+    (hidx : s.top + max (((H : Int) - (prologue s).1).toNat) (s.cursor + 1 - s.top) + 1 < 2 ^ 64) :
+    ∃ st cs, runDraw expBodies b cfg s W H F = .ok (st, cs) ∧
+      cs.length ≤ max (max (((H : Int) - (prologue s).1).toNat) (s.cursor + 1 - s.top)) 1 := by
+  have hRo : runDraw expBodies b cfg s W H F =
+      (match exec { roBase b cfg W H with
+          call := fun n => if n = "d.insertChildren" then some (insertCallee expBodies (roBase b cfg W H)) else Option.none }
+        (seqOf drawParts) F ⟨s, [], [], [], ""⟩ with
+       | .error e => .error e
+       | .ok (m, _) => .ok (m.st, m.cs)) := rfl
+  rw [hRo]
+  generalize hR : ({ roBase b cfg W H with
+          call := fun n => if n = "d.insertChildren" then some (insertCallee expBodies (roBase b cfg W H)) else Option.none } : Ro) = R
+  have hbR : ∀ i, ∃ h, R.b i = some h ∧ h ≤ Mx ∧ 1 ≤ (h : Int) + R.gap := by intro i; rw [← hR]; exact hb i
+  have hRH : R.H = H := by rw [← hR]; rfl
+  have hRW : R.W = W := by rw [← hR]; rfl
+  have hub' : ¬ (R.H = 65535 ∨ R.W = 65535) := by rw [hRH, hRW]; omega
+  obtain ⟨F', rfl⟩ : ∃ F', F = F' + 1 := ⟨F - 1, by omega⟩
+  unfold drawParts
+  rw [seqOf_cons, d0_exec, if_neg hub']
+  simp only []
+  rw [seqOf_cons, d1_exec]
+  simp only []
+  obtain ⟨h0, hb0, _, _⟩ := hbR s.top
+  rw [seqOf_cons, draw2_eq, exec_loop, loopN, cl_cond_some R _ h0 hb0]
+  simp only []
+  obtain ⟨ρ1, hp, hp2, hp3⟩ := pro_exec R s [] "" (F' + 1) [draw7, draw8, draw9, draw10, draw11, draw12, draw13, draw14, draw15, draw16, draw17]
+  rw [hp]
+  obtain ⟨hpt, hpc, _⟩ := pro_facts s
+  generalize prologue s = p at hp2 hp3 hpt hpc hno hF hidx ⊢
+  obtain ⟨ah1, s2⟩ := p
+  simp only [] at hp2 hp3 hpt hpc hno hF hidx ⊢
+  have hah : ¬ (ah1 > 0) := by omega
+  have h7 : exec R draw7 (F' + 1) ⟨s2, [], ρ1, ["v3"], ""⟩ = .ok (⟨s2, [], ρ1, ["v3"], ""⟩, .norm) := by
+    xs [draw7, hp2, hah]
+  rw [seqOf_cons, h7]
+  simp only []
+  obtain ⟨ρ3, h89, h89a, h89b⟩ := d89_exec R s2 [] ρ1 "" (F' + 1) [draw10, draw11, draw12, draw13, draw14, draw15, draw16, draw17]
+  rw [h89, seqOf_cons, draw10_eq, exec_loop]
+  rw [hp2] at h89a
+  rw [hp3] at h89b
+  obtain ⟨cs1, ρ4, hdd, hlen, hMx⟩ := pos_loop2 R Mx hbR s2 "" (max (((H : Int) - ah1).toNat) (s.cursor + 1 - s.top)) (F' + 1) [] ρ3 s2.top ah1
+    (by rw [hRH]; omega) (by rw [hpt, hpc]; omega) (by omega) (by rw [hpt]; omega) h89a h89b (by simp)
+  rw [hdd]
+  simp only []
+  have hFc : ∀ c ∈ cs1, c.height + 1 ≤ F' + 1 := fun c hc => by have := hMx c hc; omega
+  obtain ⟨ρ5, hth⟩ := th_exec R s2 cs1 ρ4 "" (F' + 1) [draw14, draw15, draw16, draw17]
+  rw [hth]
+  obtain ⟨ρ6, us6, hgu, hus6⟩ := gu_exec R s2 cs1 ρ5 "" (F' + 1) (usub s2.cursor s2.top) (toUintI_sub' _ _) (by rw [hRH]; omega) hFc
+  rw [seqOf_cons, hgu]
+  simp only []
+  obtain ⟨ρ7, us7, hrv, hus7⟩ := rv_exec R s2 cs1 ρ6 us6 hus6 "" (F' + 1) (usub s2.cursor s2.top) (toUintI_sub' _ _)
+  rw [seqOf_cons, draw15_eq, hrv]
+  simp only []
+  have hrl := revealX_length cs1 s2 R.H (usub s2.cursor s2.top)
+  generalize revealX cs1 s2 R.H (usub s2.cursor s2.top) = rr at hrl ⊢
+  obtain ⟨cs2, s4⟩ := rr
+  obtain ⟨c4, t4, o4, p4, w4⟩ := s4
+  simp only [] at hrl ⊢
+  have hus7' : us7 = ["v3"] ∨ us7 = ["v14", "v3"] ∨ us7 = ["v19", "v3"] ∨ us7 = ["v19", "v14", "v3"] := by
+    rcases hus7 with h | h <;> rcases hus6 with h' | h' <;> subst h <;> subst h' <;> simp
+  obtain ⟨ρ8, hrt⟩ := rt_range R c4 p4 w4 us7 hus7' "" (F' + 1) cs2 [] t4 o4 ρ7
+  simp only [List.nil_append, List.length_nil] at hrt
+  rw [seqOf_cons, draw16_eq, exec_range]
+  simp only []
+  rw [hrt]
+  simp only []
+  obtain ⟨vs, h17⟩ := d17_exec R (F' + 1) ⟨⟨c4, (retop R.gap cs2 0 (t4, o4)).1, (retop R.gap cs2 0 (t4, o4)).2, p4, w4⟩, cs2, ρ8, us7, ""⟩
+  rw [h17]
+  exact ⟨_, _, rfl, by simp only []; rw [hrl]; simpa using hlen⟩
+
 end VaxisModel.Lemmas.DynExec
